@@ -355,6 +355,35 @@ fn check_big_sets<D: Distance>(metric: Metric, rng: &mut StdRng, c: &mut Counter
     Ok(())
 }
 
+/// A dimension above 65535: every byte of the 4-byte dimension field matters.
+fn check_huge_dimension<D: Distance>(metric: Metric, rng: &mut StdRng, c: &mut Counters) -> Result<(), String> {
+    let world = World::new(512 << 20, false);
+    let dims = 65_541usize;
+    let index = 0x0102u16;
+    let mut wtxn = world.env.write_txn().unwrap();
+    let w = Writer::<D>::new(adb::<D>(world.db), index, dims);
+    let mut m = IndexModel::new(index, metric, dims);
+    for id in [0u32, 7, u32::MAX] {
+        let v: Vec<f32> = (0..dims).map(|_| rng.gen_range(-1.0f32..1.0)).collect();
+        w.add_item(&mut wtxn, id, &v).map_err(|e| format!("{e:?}"))?;
+        m.items.insert(id, v);
+    }
+    let mut r = StdRng::seed_from_u64(3);
+    w.builder(&mut r).n_trees(1).split_after(2).build(&mut wtxn).map_err(|e| format!("huge-dimension build: {e:?}"))?;
+    let d = rawdb::dump(&wtxn, world.db)?;
+    let decl = |i: u16| if i == index { Some((metric, dims)) } else { None };
+    let dec = rawdb::decode(&d, &decl).map_err(|e| format!("{} {dims}d: {e}", metric.short()))?;
+    let ix = dec.get(&index).ok_or("index vanished")?;
+    forest::check_forest(ix, dims, metric.disk_name()).map_err(|e| format!("{} {dims}d: {e}", metric.short()))?;
+    m.has_metadata = true;
+    let probe: Vec<u32> = m.items.keys().copied().collect();
+    engine::check_store::<D>(&wtxn, world.db, &m, &probe, true, c).map_err(|e| format!("{} {dims}d: {e}", metric.short()))?;
+    let mut qrng = StdRng::seed_from_u64(9);
+    engine::check_exact::<D>(&wtxn, world.db, &m, &mut qrng, 1, true, c).map_err(|e| format!("{} {dims}d: {e}", metric.short()))?;
+    c.inc("huge_dimension_cases");
+    Ok(())
+}
+
 /// keys written through the public API have the reference encoding and sort as (index, kind, id)
 fn check_key_lattice<D: Distance>(metric: Metric, rng: &mut StdRng, c: &mut Counters) -> Result<(), String> {
     let world = World::new(64 << 20, false);
@@ -451,6 +480,9 @@ pub fn run(args: &Args) {
     for (i, _) in ALL_METRICS.iter().enumerate() {
         cases.push((2, i as u64));
     }
+    // dimension 65541 under one f32 metric and one quantised metric
+    cases.push((3, Metric::Euclidean.idx() as u64));
+    cases.push((3, Metric::BqEuclidean.idx() as u64));
     for (ci, (kind, param)) in cases.iter().enumerate() {
         if ci as u64 % nshards != shard {
             continue;
@@ -470,6 +502,10 @@ pub fn run(args: &Args) {
                     samples.push(J::obj().set("fixture", J::s(path.display().to_string())).set("entries", J::i(f.kv.len() as u64)).set("indexes", J::s("7 (deep forest, ids at the u32 edges, one incremental round), 8 (pending updates), 65535 (single bucket)")));
                 }
                 with_metric!(metric, D, check_fixture::<D>(&f, &mut c, &mut sigs))
+            } else if *kind == 3 {
+                let mut rng = StdRng::seed_from_u64(cs);
+                sigs.insert(hash_str(&format!("hugedim|{}", metric.short())));
+                with_metric!(metric, D, check_huge_dimension::<D>(metric, &mut rng, &mut c))
             } else if *kind == 2 {
                 let mut rng = StdRng::seed_from_u64(cs);
                 sigs.insert(hash_str(&format!("bigsets|{}", metric.short())));
@@ -490,7 +526,7 @@ pub fn run(args: &Args) {
             }
             Err(msg) => {
                 c.inc("violations");
-                emit("VIOL", &J::obj().set("property", J::s("C16")).set("case_seed", J::s(format!("{cs:#x}"))).set("key", J::s(["format:fixture", "format:keys", "format:big-sets"][*kind as usize])).set("step", J::i(*param)).set("msg", J::s(msg)));
+                emit("VIOL", &J::obj().set("property", J::s("C16")).set("case_seed", J::s(format!("{cs:#x}"))).set("key", J::s(["format:fixture", "format:keys", "format:big-sets", "format:huge-dimension"][*kind as usize])).set("step", J::i(*param)).set("msg", J::s(msg)));
                 line(&format!("END {cs:#x} violation"));
             }
         }
@@ -503,8 +539,8 @@ pub fn run(args: &Args) {
         .set("counters", c.to_json())
         .set("sigs", J::Arr(sigs.iter().map(|s| J::s(format!("{s:x}"))).collect()))
         .set("samples", J::Arr(samples))
-        .set("rule", J::s("forward: 7 committed golden fixtures (one per metric; raw key/value bytes + expected items + recorded queries, generated once by the reference tree and verified by the oracles at generation) loaded through raw puts, then public API read-back, Reader::open outcome, C01 walker, recorded queries (neighbours and distances within 1e-6), incremental update + rebuild; backward: keys written through the public API over the lattice index {0,1,255,256,65535,random} x id {0,1,255,256,2^16,2^24,2^31,u32::MAX,random} compared with the reference encoding and LMDB order; per metric one index of 9 840 items (a dense 65536-block above 4096 ids, a sparse block, the top of the id range) with buckets of thousands of ids, so that roaring's bitmap containers appear in buckets and in the metadata; non-trivial+distinct = distinct (metric, index, outcome) fixture situations and (metric, round) lattices"))
-        .set("required", J::Arr(["fixture_queries_replayed", "fixture_forests_walked", "fixture_incremental_rebuilds", "fixture_indexes_opened", "key_lattices", "lattice_keys_checked", "big_set_cases"].iter().map(|s| J::s(*s)).collect()))
+        .set("rule", J::s("forward: 7 committed golden fixtures (one per metric; raw key/value bytes + expected items + recorded queries, generated once by the reference tree and verified by the oracles at generation) loaded through raw puts, then public API read-back, Reader::open outcome, C01 walker, recorded queries (neighbours and distances within 1e-6), incremental update + rebuild; backward: keys written through the public API over the lattice index {0,1,255,256,65535,random} x id {0,1,255,256,2^16,2^24,2^31,u32::MAX,random} compared with the reference encoding and LMDB order; per metric one index of 9 840 items (a dense 65536-block above 4096 ids, a sparse block, the top of the id range) with buckets of thousands of ids, so that roaring's bitmap containers appear in buckets and in the metadata; two indexes of dimension 65 541 (all four bytes of the dimension field matter); non-trivial+distinct = distinct (metric, index, outcome) fixture situations and (metric, round) lattices"))
+        .set("required", J::Arr(["fixture_queries_replayed", "fixture_forests_walked", "fixture_incremental_rebuilds", "fixture_indexes_opened", "key_lattices", "lattice_keys_checked", "big_set_cases", "huge_dimension_cases"].iter().map(|s| J::s(*s)).collect()))
         .set("wall_s", J::Num(t0.elapsed().as_secs_f64()));
     emit("SUMMARY", &j);
 }
